@@ -626,8 +626,31 @@ def adjacency_history_rules(repo, chk, rule):
     gfn = repo.func(MODEL, "WaterNetworkModel.get_links_for_node")
     chk.fn(gfn)
     world = model_world(repo)
+    try:
+        import networkx as _nx
+        world.overrides["networkx"] = _nx              # the real library (tooling venv): the graph view is built by the repository's to_graph on it
+    except ImportError:
+        _nx = None
     I = world.interp
     call = lambda o, m, *a, **k: I.call(I.getattr_(o, m), list(a), k)
+    tgf = repo.func("wntr/network/io.py", "to_graph") if _nx is not None else None
+    if tgf is not None:
+        chk.fn(tgf)
+
+    def graph_view(wn, step):
+        """to_graph(wn): one graph node per model node, one edge start -> end keyed by the link's name per link, nothing else"""
+        if tgf is None:
+            return
+        G = world.function("wntr/network/io.py", "to_graph")(wn)
+        want_nodes = sorted(n_ for n_, _o in list(call(wn, "nodes")))
+        want_edges = sorted((I.getattr_(l_, "start_node_name"), I.getattr_(l_, "end_node_name"), k_) for k_, l_ in list(call(wn, "links")))
+        got_nodes, got_edges = sorted(G.nodes()), sorted(G.edges(keys=True))
+        types_ok = all(G.edges[e_]["type"] == I.getattr_(call(wn, "get_link", e_[2]), "link_type") for e_ in G.edges(keys=True)) if got_edges == want_edges else True
+        chk.expect(got_nodes == want_nodes and got_edges == want_edges and types_ok, rule, "to_graph gives one node per model node and one edge start -> end per link, %s" % step, loc(tgf),
+                   "the graph view (topographic metrics, valve segmentation, skeletonization read it) must follow the registries and the links' current ends",
+                   expected="%d nodes, %d edges" % (len(want_nodes), len(want_edges)),
+                   found=None if (got_nodes == want_nodes and got_edges == want_edges) else "nodes only in one of them %s; edges only in one of them %s" % (
+                       sorted(set(got_nodes) ^ set(want_nodes))[:4], sorted(set(got_edges) ^ set(want_edges))[:4]))
 
     def reference(wn):
         ref = {}
@@ -650,6 +673,7 @@ def adjacency_history_rules(repo, chk, rule):
                 n += 1
                 if got != want:
                     bad.append("%s %s: %s, the links' own ends say %s" % (nname, flag, got, want))
+        graph_view(wn, step)
         chk.expect(not bad, rule, "get_links_for_node agrees with the links' current end nodes for every node and flag, %s" % step, loc(gfn),
                    "balance rows, tank / reservoir demand and the isolation search read this view; an answer that does not follow an edit of a link's ends puts the link on the wrong side of a balance",
                    expected="%d (node, flag) answers equal to the reference" % n, found=bad[:4] or None)
